@@ -12,8 +12,9 @@ import z3
 from . import sym
 from .sym import Unsupported, PathAbort, to_bool_term
 
-Z3_TIMEOUT_MS = int(os.environ.get('PYVC_Z3_TIMEOUT_MS', '10000'))
-CVC5_TIMEOUT_MS = int(os.environ.get('PYVC_CVC5_TIMEOUT_MS', '20000'))
+Z3_TIMEOUT_MS = int(os.environ.get('PYVC_Z3_TIMEOUT_MS', '10000'))              # feasibility queries (a timeout only marks the path approximate)
+Z3_PROVE_TIMEOUT_MS = int(os.environ.get('PYVC_Z3_PROVE_TIMEOUT_MS', '40000'))  # proof queries: sized so that verdicts do not flip under load
+CVC5_TIMEOUT_MS = int(os.environ.get('PYVC_CVC5_TIMEOUT_MS', '60000'))
 CVC5_BIN = '/usr/bin/cvc5'
 
 
@@ -214,7 +215,9 @@ class PathCtx:
         t0 = time.time()
         self.solver.push()
         self.solver.add(z3.Not(t))
+        self.solver.set('timeout', Z3_PROVE_TIMEOUT_MS)
         r = self.solver.check()
+        self.solver.set('timeout', Z3_TIMEOUT_MS)
         model = self.solver.model() if r == z3.sat else None
         smt2 = self.solver.to_smt2() if r == z3.unknown else None
         self.solver.pop()
